@@ -38,4 +38,8 @@ Definition latex_escape := Repl.enc Tables.latex_table.
 Definition roff_escape := Repl.enc Tables.roff_table.
 Definition markdown_escape := Repl.enc Tables.markdown_table.
 Definition latex_percent (s : str) : str := flat_map (fun c => if c =? 37 then [92;37] else [c]) s.
+(* latex.go escapeURL: percent, and the braces and backslashes url.URL.String leaves in the query *)
+Definition latex_url1 (c : rune) : str :=
+  if c =? 37 then [92;37] else if c =? 123 then [92;37;55;66] else if c =? 125 then [92;37;55;68] else if c =? 92 then [92;37;53;67] else [c].
+Definition latex_url (s : str) : str := flat_map latex_url1 s.
 Definition contains_any (chars s : str) : bool := existsb (fun c => existsb (N.eqb c) chars) s.
